@@ -368,8 +368,9 @@ fn hand_built<F: ark_ff::PrimeField>() -> Vec<Variable<F>> {
 fn circuit_at<G: CurveTag>(w: &[Fr<G>], blinds: &[Fr<G>; 2], cons: &[(&E, Fr<G>)], seed: u64, when: u8) -> Result<Result<(), R1CSError>, String> {
     guarded(|| {
         let pc = pc_gens::<G>();
-        let gens = bp_gens::<G>(4, 1);
+        let gens = bp_gens::<G>(16, 1);
         let hb = hand_built::<Fr<G>>();
+        let (prods, prod_off) = PRODS.with(|p| p.borrow().clone());
         let mut tp = Transcript::new(b"c15");
         let mut prover = Prover::new(&pc, &mut tp);
         if when == 1 {
@@ -390,6 +391,11 @@ fn circuit_at<G: CurveTag>(w: &[Fr<G>], blinds: &[Fr<G>; 2], cons: &[(&E, Fr<G>)
                 // `expr - c` with the constant passed as a field element (Sub<F>)
                 prover.constrain(t.build(if when == 0 { &vars } else { &hb }) - *c);
             }
+        }
+        for (a, b) in prods.iter().take(4) {
+            let (_, _, o) = prover.multiply(a.build(&vars), b.build(&vars));
+            let want = a.eval(w) * b.eval(w) + if prod_off { Fr::<G>::one() } else { Fr::<G>::zero() };
+            prover.constrain(o - want);
         }
         let mut rng = CountingRng::new(seed, 3);
         let proof = prover.prove(&mut rng, &gens)?;
@@ -413,6 +419,11 @@ fn circuit_at<G: CurveTag>(w: &[Fr<G>], blinds: &[Fr<G>; 2], cons: &[(&E, Fr<G>)
                 verifier.constrain(t.build(if when == 0 { &vars } else { &hb }) - *c);
             }
         }
+        for (a, b) in prods.iter().take(4) {
+            let (_, _, o) = verifier.multiply(a.build(&vars), b.build(&vars));
+            let want = a.eval(w) * b.eval(w) + if prod_off { Fr::<G>::one() } else { Fr::<G>::zero() };
+            verifier.constrain(o - want);
+        }
         verifier.verify(&proof, &pc, &gens)
     })
 }
@@ -420,6 +431,9 @@ fn circuit_at<G: CurveTag>(w: &[Fr<G>], blinds: &[Fr<G>; 2], cons: &[(&E, Fr<G>)
 thread_local! {
     /// where the constraints of the current case are spelled (see `circuit_at`)
     static WHEN: std::cell::Cell<u8> = std::cell::Cell::new(0);
+    /// pairs of expressions that are also fed to `multiply`, the product wire being constrained to
+    /// the product of their values (plus one when the flag is set)
+    static PRODS: std::cell::RefCell<(Vec<(E, E)>, bool)> = std::cell::RefCell::new((vec![], false));
 }
 
 fn circuit<G: CurveTag>(w: &[Fr<G>], blinds: &[Fr<G>; 2], cons: &[(&E, Fr<G>)], seed: u64) -> Result<Result<(), R1CSError>, String> {
@@ -466,6 +480,10 @@ fn case<G: CurveTag>(bytes: &[u8], col: &mut Collector, max_depth: usize) -> Res
     let vals: Vec<Fr<G>> = trees.iter().map(|t| t.eval(&w)).collect();
     let when_name = ["after the variables exist", "before any variable exists (hand-built handles)", "between the commitments and the gates (hand-built handles)", "after the variables exist (hand-built handles)"][when as usize];
     let what = |extra: Value| json!({"curve": G::CURVE.name(), "constraints_spelled": when_name, "assignment": specs.iter().map(|s| s.short()).collect::<Vec<_>>(), "trees": trees.iter().map(|t| t.show()).collect::<Vec<_>>(), "detail": extra});
+    // some of the expressions are also used as operands of `multiply`
+    let nprod = ch.below(3);
+    let prods: Vec<(E, E)> = (0..nprod).map(|_| (trees[ch.below(ntrees)].clone(), trees[ch.below(ntrees)].clone())).collect();
+    PRODS.with(|p| *p.borrow_mut() = (prods.clone(), false));
     // circuit A: every tree constrained to its reference value
     let cons: Vec<(&E, Fr<G>)> = trees.iter().zip(vals.iter().copied()).collect();
     match circuit::<G>(&w, &blinds, &cons, seed) {
@@ -487,6 +505,25 @@ fn case<G: CurveTag>(bytes: &[u8], col: &mut Collector, max_depth: usize) -> Res
             ));
         }
     }
+    // products off by one must be rejected
+    if !prods.is_empty() {
+        PRODS.with(|p| *p.borrow_mut() = (prods[..1].to_vec(), true));
+        let r = circuit::<G>(&w, &blinds, &[], seed);
+        PRODS.with(|p| *p.borrow_mut() = (vec![], false));
+        match r {
+            Err(p) => return Err(Failure::new("C15:panic", format!("panic: {}", p), what(json!(null)))),
+            Ok(Ok(())) => {
+                return Err(Failure::new(
+                    "C15:accepted-off-value:multiply",
+                    "constraining the output of multiply(expr_a, expr_b) to value(expr_a)·value(expr_b) + 1 was accepted".to_string(),
+                    what(json!({"a": prods[0].0.show(), "b": prods[0].1.show()})),
+                ))
+            }
+            Ok(Err(_)) => {}
+        }
+        col.class("multiply-operands");
+    }
+    PRODS.with(|p| *p.borrow_mut() = (vec![], false));
     // circuit B: one tree constrained to value + delta must be rejected
     let d: Fr<G> = delta.to_f();
     let t = &trees[bad_idx];
